@@ -1,9 +1,33 @@
 HOOK_COMMITS = ['fe2120e']
 NOT_APPLICABLE = {}
+NOTE = ('Trusted: Lean 4.33 kernel + Mathlib, axioms propext/Classical.choice/Quot.sound only (audited per theorem on every run); the hand-written executable model MVoro/Model/* and the translator '
+        'tools/extract.py for the fragments it covers; the correspondence harness, its input generators and the tolerances of DESIGN §3.6 (scaled by the conditioning number of the input). '
+        'Modelled, not verified: IEEE rounding, rstar/rayon/glam/big-integer crates, and trusted-base item 2 of DESIGN §4 (combinatorial cell = polytope). ')
+def claim(technique, text, note=''):
+    return {'technique': technique, 'text': text, 'note': NOTE + note}
 CLAIMS = {
- 'C10': {
-  'technique': 'Lean 4 proof (ring identity: determinant = orientation x power of point, for all integers) + translator-regenerated model with Gen=Ref obligation + differential correspondence on the real predicate',
-  'text': 'Theorems (all inputs): the polynomial the code expands equals orient(a,b,c,d) * (|v-o|^2 - |a-o|^2) for any equidistant centre, over any commutative ring; sign corollaries over Z; the code text is re-translated to Lean on every run and proved equal to the reference polynomial by `ring`; the real in_sphere_test_exact is compared with the model on exhaustive/random/adversarial co-spherical tuples.',
-  'note': 'Trusted: Lean kernel + 3 standard axioms; translator for the macro fragment; big-integer crates implement Z; IEEE rounding inside iloc modelled as a monotone map. The correspondence samples inputs; its generators are listed in the evidence.',
- },
+ 'C01': claim('Lean 4 proof (early-terminating clipping loop = nearest-generator region, for all point sets and dimensions) + exact rational cell oracle in Lean compared with the real cells',
+  'Theorems: half space = closer-to-g; run_eq_voronoi: for candidates in order of distance and any valid radius function the loop with security-radius termination returns {x in B | forall q, dist x g <= dist x q}; unclipped planes are irrelevant; vertex radius is a valid radius. Correspondence: every cell built by the implementation (volume, centroid, faces keyed by neighbour+shift, polytope Hausdorff distance) against the exact rational cell on all input families.',
+  'Partial: that the H- and V-representation maintained by clipping describe the same polytope is certified per cell at run time (feasibility, brute-force rebuild), not proved. KNOWN findings F1, F2.'),
+ 'C02': claim('Lean 4 proof (cells cover; overlaps lie in a proper hyperplane; generator strictly inside; unit thickness) + exact rational volumes summing exactly to the box + correspondence',
+  'Covering and null-overlap are proved for every finite generator family in any real inner-product space; the final measure-theoretic step (sum of Lebesgue measures) is not formalised and is replaced by the exact oracle certificate: its rational volumes sum exactly to the box volume on every tessellation. Implementation volumes are compared with the exact ones and their sum with the box measure, all families, 1D/2D/3D, periodic or not.',
+  'Partial (sum_volume_eq_partial): see text.'),
+ 'C03': claim('Lean 4 proof (face i j = face j i as sets; storage rule exactly-once; listed by both; antisymmetric flux cancels; alternating determinant) + correspondence on all-pairs non-symmetric face integrals',
+  'Set-level reciprocity and the bookkeeping theorems hold for all inputs/masks; the implementation is checked for every non-negligible face (i,j,s) to have the partner (j,i,-s) with equal area and shifted centroid, and for the storage clauses.', ''),
+ 'C04': claim('Lean 4 proof (closure, apex independence, divergence identity for closed oriented surfaces; orientation convention) + translator obligation on the stored-normal sign + correspondence',
+  'The sign of the stored normal relative to g-q is re-extracted from the source on every run and must be -1 (decide); closure/divergence are proved for every closed oriented triangulated surface; implementation faces are checked for unit length, direction, centroid on plane, closure and divergence.',
+  'KNOWN finding F2 (wall faces of generators on that wall).'),
+ 'C05': claim('Lean 4 proof of the logic around the run-time behaviour (generator never clipped, grid range with margin on translated constants, consistent tie decisions) + differential runs in debug and release on degenerate families',
+  'Panic-freedom of float code is not a theorem about the model (labelled partial): the check proves what the model carries and samples the degenerate families in both build profiles against the exact oracle and the C02/C04 predicates.',
+  'Partial by nature. KNOWN findings F1 (topology panics on near-degenerate families), F2.'),
+ 'C07': claim('Lean 4 proof on the bookkeeping model (cell independent of mask, face storage under masks) + exhaustive-mask bitwise comparison full vs partial',
+  'Theorems for all masks on Model/Tess; implementation: all 2^n masks for n<=6 and random masks above, selected cells bitwise equal, face sets equal, storage clauses.', ''),
+ 'C10': claim('Lean 4 proof (ring identity: determinant = orientation x power of point, for all integers; alternating; i64 subtraction exact; grid range/monotonicity) + translator-regenerated model with Gen=Ref obligations + differential correspondence',
+  'The polynomial the code expands (re-translated from the macros on every run, proved equal to the reference by ring) equals orient*(|v-o|^2-|a-o|^2) over any commutative ring; Int64 subtraction is exact below 2^52; the translated grid constants put every queried position in [17/16,31/16]; the real predicate and iloc are compared on exhaustive/random/adversarial inputs.', ''),
+ 'C12': claim('Lean 4 proof on the bookkeeping model (finalize = prefix sums + slices; neighbour_ids spec) + exact correspondence of both construction routes',
+  'Induction proofs over the face list for all inputs; the implementation structure (offsets, counts, connectivity, neighbour lists) must equal the model token by token and satisfy the C12 statement directly.', ''),
+ 'C13': claim('Lean 4 proof (routes_equal, sym = filtered non-sym, stored = sym, order of cell integrals) + bitwise implementation-vs-implementation comparison',
+  'Model theorems for all masks; implementation: direct vs converted bitwise, integrals vs stored bitwise incl. order, sym vs filter, with-faces route within tolerance.', 'KNOWN finding F2.'),
+ 'C16': claim('Lean 4 proof (hull in ball, neighbour within 2*distance, security radius, far generators irrelevant, subspace form) + correspondence against the exact farthest vertex and add-far experiments',
+  'Set-level theorems for all inputs; implementation: safety radius >= 2*exact farthest vertex distance and >= every face neighbour distance; cell unchanged when generators are added outside the safety ball.', ''),
 }
